@@ -208,6 +208,13 @@ func (r *Run) SetExhaustive(b bool) { r.mu.Lock(); r.exhaustive = &b; r.mu.Unloc
 // specific failure (stable across runs: site + class, never raw input);
 // witness is what a reader needs to replay it.
 func (r *Run) Violation(signature string, witness any) {
+	if strings.HasPrefix(signature, "panic@?") {
+		// a panic without a single tongo frame on its stack is the harness's own bug, not an
+		// observation about tongo: report the check as broken, never as a violation
+		b, _ := json.Marshal(witness)
+		r.HarnessError("panic outside tongo (%s): %s", signature, Trunc(string(b), 600))
+		return
+	}
 	r.mu.Lock()
 	defer r.mu.Unlock()
 	v := r.viol[signature]
